@@ -113,6 +113,7 @@ func init() {
 						for fi, flags := range flagSets {
 							br := w.Build(files, flags...)
 							c.Count("runs")
+							c.Count("evaluations_extra")
 							c.Distinct("all", c.ID+fmt.Sprint(fi))
 							if len(sel) > 0 && fi > 0 {
 								c.Distinct("nontrivial", c.ID+fmt.Sprint(fi))
